@@ -6,6 +6,7 @@ CONSTANTS
   MaxElems = 3
   RefMax = 4
   MaxOutputs = 1
+INVARIANT ValidImpliesSafe
 INVARIANT ModelTotal
 INVARIANT Emit
 CHECK_DEADLOCK FALSE
